@@ -30,6 +30,32 @@ Example P_parse_critical_example :
   exists d, parse_file 100 [46; 97; 115; 99; 105; 105; 32; 34; 97] = PCritical d.
 Proof. eexists. vm_compute. reflexivity. Qed.
 
+(* Every offset the parser stores lies inside the file, start not after end (C17's range clause at parser level):
+   for every text and ANY fuel, every ctx_start/ctx_end pair of every token of the tree (Model/StmtParseOffsets.v:
+   [offsets]; the `.ctx` of a code block counts as (p, p)) and every span of every diagnostic, also on the critical
+   path, satisfies start <= end <= len text.  Proved from an invariant threaded through every parser function
+   (contexts are well formed: pos + |rest| = len text; what has been built so far ends at or before the current
+   position).  Together with P_parse_total the POk / PCritical cases are the only ones for sufficient fuel. *)
+From Verif Require Import Model.StmtParseOffsets Proofs.StmtParseW.
+Theorem P_offsets_in_file :
+  forall (text : list N) (fuel : nat),
+    match parse_file fuel text with
+    | POk b d => Forall (span_in (len text)) (offsets b) /\ Forall (span_in (len text)) (diag_spans d)
+    | PCritical d => Forall (span_in (len text)) (diag_spans d)
+    | PCrash _ | POutOfFuel => True
+    end.
+Proof. exact parse_offsets_in_file. Qed.
+Print Assumptions P_offsets_in_file.
+
+(* "children lie inside their parents" is NOT a property of pdpy11's trees (so no P_tree_offsets_monotone): a postfix
+   operator token spans the operator only, its operand lies before it; a CodeBlock spans its LAST statement only *)
+Example P_children_not_inside_parents :
+  parse_file 100 [46; 119; 111; 114; 100; 32; 120; 43] =
+    POk (Block 0 8 None [Insn 0 8 (Symbol 0 5 [46; 119; 111; 114; 100] false) [Postfix 7 8 [43] (Symbol 6 7 [120] false)]]) [] /\
+  parse_file 100 [110; 111; 112; 10; 110; 111; 112] =
+    POk (Block 4 7 None [Insn 0 3 (Symbol 0 3 [110; 111; 112] false) []; Insn 4 7 (Symbol 4 7 [110; 111; 112] false) []]) [].
+Proof. split; vm_compute; reflexivity. Qed.
+
 (* ------------------------------------------------------------------------------------------------------------
    Stage 3 -- spelling.  The whole-parser statements ("the tree is unchanged up to offsets / up to the stored
    spelling") are NOT proved: they need a two-run simulation through every function of the model.  What is proved is
